@@ -27,7 +27,7 @@ META = {
                   "differential correspondence (all values and all bit strings for every width <= 64 (thorough <= 256) and 2^k, 2^k+-1 up to 2^10 (2^13), samples up to "
                   "2^32, and operation sequences on long-lived Integer instances in which returned bit strings are modified in place and the same value is encoded again; "
                   "all evaluated in Coq by vm_compute) and an independent oracle of the English statement on the real code.",
-    "level_note": "The model replaces the float expression int(math.log(w,2))+1 by Z.log2 w + 1; this is NOT proved, it is tied by correspondence only: exhaustively "
+    "level_note": "Tie/T17.v also states range and round trip about the encode/decode path (six routines) GENERATED from the source text (tie_c17_generated_*). The model replaces the float expression int(math.log(w,2))+1 by Z.log2 w + 1; this is NOT proved, it is tied by correspondence only: exhaustively "
                   "for w <= 2^10 (thorough 2^16), for every 2^k, 2^k-1, 2^k+1 with k <= 32 at 15 offsets (negative, zero-crossing, max=0, and offsets beyond 2^53, 2^63, 10^18, 2^100 that no double represents), and random widths < 2^32 "
                   "(the float expression first goes wrong at w = 2^48-1, outside the property; the run records the sweep).  gray2bin([]) raises IndexError and "
                   "int2bin(n<0) does not terminate in the code: both are None in the model, so Gray inversion is stated for length >= 1 and int2bin for n >= 0 "
